@@ -260,6 +260,8 @@ type c08obs struct {
 	class, pkt, first, verbatim, resends, prompt, silent, goroutines, fds string
 	// the raw observation behind `resends` (see the head of the file)
 	arr, end string
+	// lag: whole ms between the peer sending the reply that was returned and the return ("na": no reply returned)
+	lag string
 	// t0Ms: the instant the Dialer's Control hook returned (whole ms since the call began; 0 if it never ran): the
 	// socket exists, nothing has been written yet - an origin that is not after the model's t0
 	t0Ms    int
@@ -278,7 +280,7 @@ type c08obs struct {
 func (o c08obs) String() string {
 	return "class=" + o.class + " pkt=" + o.pkt + " first=" + o.first + " verbatim=" + o.verbatim + " resends=" + o.resends +
 		" prompt=" + o.prompt + " silent=" + o.silent + " goroutines=" + o.goroutines + " fds=" + o.fds +
-		" t0=" + itoa(o.t0Ms) + " arr=" + o.arr + " end=" + o.end + " d=" + itoa(o.retryMs)
+		" t0=" + itoa(o.t0Ms) + " arr=" + o.arr + " end=" + o.end + " d=" + itoa(o.retryMs) + " lag=" + o.lag
 }
 
 // c08TolMs: the allowance (milliseconds) with which the model's bounds are evaluated on the raw numbers; the same
@@ -313,7 +315,15 @@ func c08TimedBad(arr []int, end, dms, t0 int) bool {
 func (o c08obs) timingOK() bool {
 	// (the goroutine and descriptor census is NOT re-measured here: a leak that shows in every second run would
 	// survive three attempts one time in eight, and ./check runs a failing case again, alone, anyway)
-	return !o.early && !o.timedBad && o.prompt != "false" && o.resends != "toofew" && o.resends != "toomany"
+	return !o.early && !o.timedBad && o.prompt != "false" && o.resends != "toofew" && o.resends != "toomany" && !o.lagBad()
+}
+
+// lagBad: a reply that was returned more than 250 ms after the peer had sent it
+func (o c08obs) lagBad() bool {
+	if o.lag == "na" || o.lag == "" {
+		return false
+	}
+	return atoi(o.lag) >= 250
 }
 
 func c08Class(err error) string {
@@ -379,7 +389,7 @@ func (l *c08peerLog) vanishReader(conn *net.UnixConn, path string, fdAdjust *ato
 
 func runC08(sc *c08scenario) c08obs {
 	obs := c08obs{pkt: "-", first: "-", verbatim: "na", resends: "na", prompt: "na", silent: "na", goroutines: "na", fds: "na",
-		arr: "na", end: "na", retryMs: int(sc.retry / time.Millisecond)}
+		arr: "na", end: "na", lag: "na", retryMs: int(sc.retry / time.Millisecond)}
 	_, encErr := sc.req.Encode()
 
 	// peer and sentinel sockets (part of the descriptor baseline)
@@ -577,6 +587,7 @@ func runC08(sc *c08scenario) c08obs {
 	})
 
 	// the peer's script
+	var replySentAt atomic.Int64 // (wall clock, compared with r.at only when a reply came back)
 	if peer != nil {
 		switch sc.peer {
 		case "late":
@@ -588,6 +599,7 @@ func runC08(sc *c08scenario) c08obs {
 				for i := 0; i < sc.g; i++ {
 					peer.WriteToUDP(sc.garbage, to)
 				}
+				replySentAt.Store(time.Now().UnixNano())
 				peer.WriteToUDP(sc.reply, to)
 				for i := 0; i < sc.m; i++ {
 					if i%2 == 0 {
@@ -676,6 +688,14 @@ func runC08(sc *c08scenario) c08obs {
 	}
 	if r.err == nil && r.p == nil {
 		obs.class = "nil-nil"
+	}
+	// "with the reply as soon as an acceptable one arrives": how long after the peer had sent it did the call return
+	if obs.class == "reply" && replySentAt.Load() != 0 {
+		lag := r.at.Sub(time.Unix(0, replySentAt.Load()))
+		if lag < 0 {
+			lag = 0
+		}
+		obs.lag = itoa(int(lag / time.Millisecond))
 	}
 
 	if sc.cancel == "deadline" && obs.class == "ctx-deadline" && encErr == nil && sc.peer != "closed" && sc.peer != "nodial" {
